@@ -624,43 +624,46 @@ def _hi_run(ctx, schema, ops, via_tx):
     for op in ops:
         try:
             if op[0] == 'newh':
-                o = classes[levels[op[1]]]()
+                o = classes[levels[op[1]]](**ckw)
                 leaf_of[o.id] = op[1]
+                if via_tx:
+                    del o
+                    conn.cache.clear()      # later uses FETCH the object through the transaction
             elif op[0] == 'newx':
-                classes['X'](x=op[1], y=op[2])
+                classes['X'](x=op[1], y=op[2], **ckw)
             elif op[0] == 'setfk':
                 _, x, lv, h = op
                 if x not in live_x() or (h is not None and h not in live_h()):
                     continue
-                setattr(classes['X'].get(x), 'f%sID' % levels[lv].lower(), h)
+                setattr(classes['X'].get(x, **ckw), 'f%sID' % levels[lv].lower(), h)
             elif op[0] in ('add', 'rem'):
                 _, lv, h, x, side = op
                 if levels[lv] not in schema['joins'] or h not in live_h() or x not in live_x():
                     continue
                 verb = 'add' if op[0] == 'add' else 'remove'
                 if side == 'x':
-                    getattr(classes['X'].get(x), '%sRX%s' % (verb, levels[lv]))(classes['P'].get(h))
+                    getattr(classes['X'].get(x, **ckw), '%sRX%s' % (verb, levels[lv]))(classes['P'].get(h, **ckw))
                 else:
                     # through the object's most derived class: forwarded to the declaring level when that is an ancestor
-                    getattr(classes['P'].get(h), '%sR%s%s' % (verb, levels[lv], 'Q' if side == 'hq' else ''))(classes['X'].get(x))
+                    getattr(classes['P'].get(h, **ckw), '%sR%s%s' % (verb, levels[lv], 'Q' if side == 'hq' else ''))(classes['X'].get(x, **ckw))
             elif op[0] == 'delh':
                 if op[1] not in live_h():
                     continue
                 try:
-                    classes['P'].get(op[1]).destroySelf()
+                    classes['P'].get(op[1], **ckw).destroySelf()
                 except sqlobject.main.SQLObjectIntegrityError:
                     pass
             elif op[0] == 'delx':
                 if op[1] not in live_x():
                     continue
-                classes['X'].get(op[1]).destroySelf()
+                classes['X'].get(op[1], **ckw).destroySelf()
         except Exception as e:
             done.append(op)
             ctx.oracle_fail('C13:inherit:op-raises:%s' % sqlo.exc_name(e), 'operation %r on an inheritable hierarchy raised %r' % (op, e),
-                            {'mode': 'inherit', 'schema': schema, 'ops': list(done)})
+                            {'mode': mode, 'schema': schema, 'ops': list(done)})
             return
         done.append(op)
-        case = {'mode': 'inherit', 'schema': schema, 'ops': list(done)}
+        case = {'mode': mode, 'schema': schema, 'ops': list(done)}
         nonempty = False
         attrs = {r[0]: (r[1], r[2]) for r in conn.queryAll('SELECT id, x, y FROM %s' % classes['X'].sqlmeta.table)}
 
@@ -674,7 +677,7 @@ def _hi_run(ctx, schema, ops, via_tx):
                 return tuple(out)
             return kf
         for h in live_h():
-            obj = classes['P'].get(h)
+            obj = classes['P'].get(h, **ckw)
             if type(obj).__name__ != levels[leaf_of[h]]:
                 ctx.oracle_fail('C13:inherit:wrong-class', 'P.get(%d) loads as %s, created as %s' % (h, type(obj).__name__, levels[leaf_of[h]]), case)
                 return
@@ -710,7 +713,7 @@ def _hi_run(ctx, schema, ops, via_tx):
                     ctx.oracle_fail('C13:inherit:single-join', 'one%s of %s %d gives %r, referencing rows %r' % (lv, type(obj).__name__, h, one, raw_fk), case)
                     return
         for x in live_x():
-            xo = classes['X'].get(x)
+            xo = classes['X'].get(x, **ckw)
             for lv in levels:
                 if lv not in schema['joins']:
                     continue
@@ -723,7 +726,7 @@ def _hi_run(ctx, schema, ops, via_tx):
                 if Counter(got) != Counter(raw):
                     ctx.oracle_fail('C13:inherit:asymmetric', 'rx%s of X %d returns %r, the link table holds %r' % (lv, x, got, raw), case)
                     return
-        ctx.case(('inherit', json.dumps(schema, sort_keys=True), json.dumps(done)), nontrivial=nonempty, kind='inherit/' + op[0])
+        ctx.case((mode, json.dumps(schema, sort_keys=True), json.dumps(done)), nontrivial=nonempty, kind=mode + '/' + op[0])
 
 
 def run_inherit(ctx):
@@ -732,9 +735,10 @@ def run_inherit(ctx):
         data = json.load(open(path))
         for c in (data if isinstance(data, list) else [data]):
             hi_run(ctx, c['schema'], c['ops'])
-    for _ in range(ctx.budget(120, 2500)):
+            hi_run(ctx, c['schema'], c['ops'], via_tx=True)
+    for n in range(ctx.budget(120, 2500)):
         schema, ops = hi_gen(ctx.rng)
-        hi_run(ctx, schema, ops)
+        hi_run(ctx, schema, ops, via_tx=(n % 3 == 2))
 
 
 def run(ctx):
@@ -793,8 +797,8 @@ def replay(case):
         def count(self, *a):
             pass
     c = C()
-    if case.get('mode') == 'inherit':
-        hi_run(c, case['schema'], case['ops'])
+    if case.get('mode') in ('inherit', 'inherit-tx'):
+        hi_run(c, case['schema'], case['ops'], via_tx=(case['mode'] == 'inherit-tx'))
     else:
         run_history(c, case['schema'], case['ops'])
     text = ''.join('FAIL [%s] %s\n' % f for f in c.fails[:10]) or 'every accessor mirrors the stored relation after every step\n'
